@@ -36,6 +36,11 @@ CHECKS = {
         text="Exploration: histories of 2-40 (thorough 2-400) runs over pools of generated programs, programs failing midway inside nested loops, allocating programs under small budgets (cumulative allocation crosses the budget up to 30x) and programs whose environment functions depend on the bound environment value; after every run the reused VM's value (Exact), failure message, environment-call log, stack and scope are compared with a fresh VM, and recently returned values are re-inspected for modification by later runs.",
         note="Trusted: vm.Run on a fresh VM as the model; Exact/Show. vm.MemoryBudget is process-global: the check is single-goroutine and restores it.",
         ref="4/C07"),
+    "C09": dict(
+        technique="property-based testing (rapid) with invariants over a small history per case (compile x3 with foreign compilations in between, snapshot, run, snapshot, run again) + a differential across fresh child processes that compile one list of (source, environment kind) pairs in different orders and under different GOMAXPROCS",
+        text="Exploration: for generated programs and option sets the three compilations must be identical in bytecode, constants (regexps by pattern, lookup maps by content), locations and source; deep Show-snapshots of the sample environment, the run environment and the Program must be unchanged by Compile and Run; a second run on an equal environment must be Exact and must not alter the first result. Across 4 (thorough 16) fresh processes 96 (source, environment kind) pairs over an environment type with value- and pointer-receiver methods and embedded structs must compile to the same digest or the same rejection whatever was compiled before.",
+        note="Trusted: core.Show as the deep snapshot (maps sorted, pointers followed, funcs omitted); the program dump. Process-level nondeterminism is sampled through map-seed/GOMAXPROCS differences of child processes, not controlled.",
+        ref="4/C09"),
     "C10": dict(
         technique="bounded exhaustive enumeration of (parent kind, child slot, child kind) triples + rapid random ast.Node trees against a reflection-based child enumerator; replacement visitors; Patch differential (41->42) end to end",
         text="Exploration, exhaustive over all single-edge shapes: every node kind in every child slot of every parent kind (optional slots absent/present, lists of length 0-3), each with and without a replacing visitor on Enter and on Exit; random deep trees; parsed and optimised trees of generated programs; and a differential between Compile(src, Patch(41->42)) and Compile(src with 42) with the literal at drawn positions.",
